@@ -52,6 +52,32 @@ pub fn document(rng: &mut Rng) -> String {
     doc
 }
 
+/// a long file: hundreds of lines, most of them producing a diagnostic, with good lines among and after them
+/// (anything that gives up, truncates or goes quadratic after many diagnostics shows here)
+pub fn long_document(rng: &mut Rng) -> String {
+    let bad = rng.pick(&[60usize, 99, 100, 101, 150, 400]);
+    let numbers: Vec<u64> = (1..=40).map(|i| i * 10).collect();
+    let mut lines = vec![];
+    for i in 0..bad {
+        lines.push(match rng.below(6) {
+            0 => gen::simple_statement(rng),                 // unnumbered
+            1 => format!("{}", rng.pick(&numbers)),          // emptied
+            2 => format!("{} PRINT \"open {}", rng.pick(&numbers), i),
+            3 => format!("{} X = 1.2.3", 5000 + i),
+            4 => format!("{} PRINT 1 +", 7000 + i),
+            _ => format!("{} PRINT \"é\" + {}", 9000 + i, i),
+        });
+        if rng.chance(1, 10) {
+            lines.push(format!("{} {}", 20000 + i, gen::simple_statement(rng)));
+        }
+    }
+    for i in 0..rng.range(1, 5) {
+        lines.push(format!("{} {}", 30000 + i * 10, gen::simple_statement(rng)));
+    }
+    let sep = rng.pick(&["\n", "\n", "\r\n"]);
+    lines.join(sep)
+}
+
 fn analyze_op(doc: &str) -> String {
     if doc.is_empty() {
         "analyze".to_string()
@@ -82,6 +108,10 @@ pub fn c05_cases(rng: &mut Rng, tier: &str) -> (Vec<Case>, bool) {
             cases.push(Case { ops: vec![analyze_op(&d)], checks: vec!["analysis-wellformed 0".into()], tag: "very-deep".into(), nontrivial: true, show: format!("{}… ({} levels)", d.chars().take(30).collect::<String>(), n) });
         }
     }
+    for _ in 0..(n / 150).max(6) {
+        let d = long_document(rng);
+        cases.push(Case { ops: vec![analyze_op(&d)], checks: vec!["analysis-wellformed 0".into()], tag: "long-file".into(), nontrivial: true, show: format!("{} lines: {:?}…", d.lines().count(), d.chars().take(80).collect::<String>()) });
+    }
     for _ in 0..n {
         let d = document(rng);
         let kinds = d.split(['\n', '\r']).count();
@@ -106,6 +136,7 @@ pub fn c20_cases(rng: &mut Rng, tier: &str) -> (Vec<Case>, bool) {
                 2 => "10 PRINT 1\r20 GOTO 99".to_string(),
                 3 => "10 A$ = \"😀é\" : PRINT A$ + 1\r\n\r\n20 REM 日本語\n".to_string(),
                 4 => "10 REM café\u{2028}au lait\n20 PRINT \"x\u{2029}y\";A".to_string(),
+                5 if rng.chance(1, 4) => long_document(rng),
                 _ => document(rng),
             };
             ops.push(if d.is_empty() { "lsp".to_string() } else { format!("lsp {}", hexs(&d)) });
@@ -126,7 +157,9 @@ pub fn c06_cases(rng: &mut Rng, tier: &str) -> (Vec<Case>, bool) {
         let k = rng.range(1, 3);
         let mut parts = vec![];
         for _ in 0..k {
-            parts.push(match rng.below(14) {
+            parts.push(match rng.below(15) {
+                // valid but unusual operand positions: a unary operator right after a binary one, nested unary in arguments
+                14 => format!("PRINT {}", rng.pick(&["2 ^ -1", "10 ^ -N", "4 ^ +2", "7 ^ NOT F", "2 ^ 2 ^ -1", "3 * -2", "3 - -2", "1 AND NOT 0", "ABS(-3) ^ -1", "1 < -1", "\"a\" = \"a\" AND NOT \"\"", "INT(- .5)", "2 ^ -(1)", "- 2 ^ 2"])),
                 0..=3 => gen::simple_statement(rng).replace("RND(", "ABS("),
                 4 => format!("{} = {}", gen::num_var(rng), gen::str_expr(rng, 0)),
                 5 => format!("{} = {}", gen::str_var(rng), gen::num_expr(rng, 1).replace("RND(", "ABS(")),
@@ -179,6 +212,30 @@ pub fn c06_cases(rng: &mut Rng, tier: &str) -> (Vec<Case>, bool) {
         w.state();
         let b = w.last();
         cases.push(Case { ops: w.ops, checks: vec![format!("no-error-on-line {} {} {}-{}", ai, k, a, b)], tag: "valid-after-rejected".into(), nontrivial: true, show: format!("{} rejected lines then {:?}", k, good) });
+    }
+    // user-function calls of every arity against definitions of every arity: a DEF line and one call. Only the forward
+    // direction applies (accepted => no syntax / type failure): the property's converse excludes definitions and calls
+    let defs = ["DEF FNA(X) = X + 1", "DEF FNA(X, Y) = X + Y", "DEF FNA(X, Y, Z) = X + Y * Z", "DEF FNA(A$) = 1", "DEF FNA(X, B$) = X", "DEF FNA$(X) = \"s\"", "DEF FNA(X) = \"s\""];
+    let args = ["", "1", "1,", "1, 2", "1, 2,", "1, 2, 3", "1, 2, 3, 4", "\"s\"", "1, \"s\"", "\"s\", 1", ",1", "1 2", "(1), (2)", "FNA(1), 2"];
+    for d in defs {
+        for a in args {
+            for call in ["PRINT FNA({})", "Y = FNA({}) * 2", "PRINT 1 + FNA({})"] {
+                let text = format!("10 {}\n20 {}", d, call.replace("{}", a)).replace("FNA(", if d.contains("FNA$") { "FNA$(" } else { "FNA(" });
+                let mut w = Walk::new(false, false);
+                w.op(&analyze_op(&text));
+                let ai = w.last();
+                let a0 = w.ops.len();
+                for l in text.split('\n') {
+                    w.start(l);
+                }
+                w.start("RUN");
+                let mut nr = 0;
+                w.drive(&[], &mut nr, 30, false);
+                w.state();
+                let b = w.last();
+                cases.push(Case { ops: w.ops, checks: vec![format!("agree-sound {} {}-{}", ai, a0, b)], tag: "function-arity".into(), nontrivial: true, show: text.replace('\n', " | ") });
+            }
+        }
     }
     // small programs: no analysis error => no syntax / type / undefined-line failure at run time, on several input scripts
     let opts = GenOpts { allow_else_resume: false, ..Default::default() };
